@@ -564,11 +564,24 @@ def combined_phase(P, rec, r, rounds):
     one = fixture.Fixture(servertype="multiplex", COMMTIMEOUT=0.0)
     two = fixture.Fixture(servertype="multiplex", COMMTIMEOUT=0.0, start_loop=False)
     gate = threading.Event()
+    entered = threading.Event()
+    sent = [0]
+    sent_lock = threading.Lock()
+
+    def counting(conn):
+        orig = conn.send
+
+        def send(data):
+            orig(data)
+            with sent_lock:
+                sent[0] += 1
+        conn.send = send
 
     @P.server.expose
     class Holder(object):
         def hold(self):
-            gate.wait(5)        # parks the (single) loop thread: whatever arrives meanwhile is ready in the same select round afterwards
+            entered.set()
+            gate.wait(8)        # parks the (single) loop thread: whatever arrives meanwhile is ready in the same select round afterwards
             return "held"
     try:
         a, b = items.Item("comb-one"), items.Item("comb-two")
@@ -584,15 +597,21 @@ def combined_phase(P, rec, r, rounds):
         for k in (1, 2):
             proxies[k]._pyroBind()
             dproxies[k]._pyroBind()
+            counting(proxies[k]._pyroConnection)
+            counting(dproxies[k]._pyroConnection)
         for rnd in range(rounds):
             pay = {"combined": True, "round": rnd}
             rec.case(("combined", rnd), nontrivial=True)
             gate.clear()
+            entered.clear()
+            sent[0] = 0
             results = {}
             hp = one.proxy("holder", timeout=10.0)
-            ht = threading.Thread(target=lambda: hp.hold(), daemon=True)
+            ht = threading.Thread(target=lambda: (hp._pyroClaimOwnership(), hp.hold()), daemon=True)      # (a proxy belongs to the thread that uses it)
             ht.start()
-            time.sleep(0.05)
+            if not entered.wait(8):           # the loop thread is parked inside hold() ...
+                rec.inconc("combined daemons: the loop thread could not be parked")
+                return
 
             def call(k, what):
                 try:
@@ -606,10 +625,12 @@ def combined_phase(P, rec, r, rounds):
                     t = threading.Thread(target=lambda k=k, what=what: ((proxies if what == "who" else dproxies)[k]._pyroClaimOwnership(), call(k, what)), daemon=True)
                     ts.append(t)
                     t.start()
-            time.sleep(0.1)
-            gate.set()
+            one.wait_until(lambda: sent[0] >= 4, 8.0)        # ... all four requests are on their way (no guess about how long that takes) ...
+            time.sleep(0.02)
+            gate.set()                                       # ... and are found ready in one select round
             for t in ts + [ht]:
                 t.join(10)
+            hp._pyroClaimOwnership()
             hp._pyroRelease()
             for k in (1, 2):
                 who, reg = results.get((k, "who")), results.get((k, "reg"))
